@@ -8,10 +8,12 @@ CONFIG = dict(
     level="exploration",
     rule=("edit histories over the opcode-sequence interface (insert at several positions, item and "
           "slice assignment, item and slice deletion, append, extend, +=, pop, remove, reverse, "
-          "clear-and-refill, and the five injection helpers), bounded-exhaustive up to the tier's length "
+          "clear-and-refill, extend / += / slice assignment from iterables that fail half-way, and the five "
+          "injection helpers), bounded-exhaustive up to the tier's length "
           "from natural and assembled starting pickles plus seeded random histories of length 30; all "
           "views are read after *every* step (which also fills the caches before the next edit) and "
-          "compared with a freshly constructed Pickled(list(p)); dumps() is compared with the "
+          "compared with a freshly constructed Pickled(list(p)) and with a pickle built from opcode objects "
+          "re-created from their constructor arguments; dumps() is compared with the "
           "concatenation of the opcodes' data.  A case is one distinct (start, history); non-trivial = "
           "at least one edit whose fresh views differ from the views read just before it (a stale cache "
           "would be observable)."),
